@@ -1388,6 +1388,14 @@ class BinaryOperator(SymbolicExpression, ABC):
         return list(dict.fromkeys(node._id_ for operand in operands for node in operand._all_nodes_
                                   if isinstance(node, (Flatten, Concatenate))))
 
+    @staticmethod
+    def _flatten_nodes_of_(operand: SymbolicExpression) -> List[SymbolicExpression]:
+        """
+        The flatten nodes of an operand: like a variable, a flatten node binds one element per row - rows that differ in the
+        element are different rows for whatever reads the element.
+        """
+        return [node for node in operand._all_nodes_ if isinstance(node, Flatten)]
+
     def yield_final_output_from_cache(self, variables_sources, cache: Optional[IndexedCache] = None) \
             -> Iterable[Dict[int, HashedValue]]:
         cache = self._cache_ if cache is None else cache
@@ -1455,6 +1463,7 @@ class BinaryOperator(SymbolicExpression, ABC):
         required_vars = HashedIterable()
         if child is self.left:
             required_vars.update(self.right._unique_variables_)
+            required_vars.update(self._flatten_nodes_of_(self.right))
         if when_true or (when_true is None):
             for conc in self._conclusion_:
                 required_vars.update(conc._unique_variables_)
@@ -1603,6 +1612,8 @@ class Comparator(BinaryOperator):
         # are compared with different values of the other operand are different rows.
         required_vars.update(self.left._unique_variables_)
         required_vars.update(self.right._unique_variables_)
+        required_vars.update(self._flatten_nodes_of_(self.left))
+        required_vars.update(self._flatten_nodes_of_(self.right))
         return required_vars
 
     @property
@@ -1777,6 +1788,7 @@ class OR(LogicalOperator, ABC):
         if child is self.left:
             if when_false or (when_false is None):
                 required_vars.update(self.right._unique_variables_)
+                required_vars.update(self._flatten_nodes_of_(self.right))
                 # the right branch may fire for a row the left one rejects: what it (or a branch below it) concludes needs its variables.
                 for conc in [*self.right._conclusion_, *self.right._conclusions_of_all_descendants_]:
                     required_vars.update(conc._unique_variables_)
